@@ -8,7 +8,7 @@
 (***************************************************************************)
 EXTENDS Naturals, Sequences, FiniteSets, TLC
 
-Values == {"i5", "i0", "im1", "s_abc", "s_5", "s_x", "true", "null", "a_12", "a_a", "o_k1", "f1_5"}
+Values == {"i5", "i0", "im1", "s_abc", "s_5", "s_x", "true", "null", "a_12", "a_a", "o_k1", "f1_5", "o_x1", "a_ox1"}   \* o_x1 = {"x":1}, a_ox1 = [{"x":1}]
 \* JSON-schema fragments: int = {"type":"integer"}, intmin0 = + "minimum":0, intmax0 = + "maximum":0,
 \* strenum = {"type":"string","enum":["abc","5"]}, bool = {"type":"boolean"}, intlist = {"type":"array","items":{"type":"integer"}}
 SchemaTypes == {"int", "intmin0", "intmax0", "strenum", "bool", "intlist"}
@@ -19,12 +19,15 @@ SchemaConf(T, v) == CASE T = "int"     -> v \in {"i5", "i0", "im1"}
                       [] T = "bool"    -> v = "true"
                       [] T = "intlist" -> v = "a_12"
 \* type annotations: int, str, bool, Optional[int], List[int]: "yes" (already of the type), "no" (cannot be), "co" (convertible: don't-care)
-PydTypes == {"int", "str", "bool", "optint", "intlist"}
-PydConf(T, v) == CASE T = "int"     -> IF v \in {"i5", "i0", "im1"} THEN "yes" ELSE IF v \in {"s_abc", "s_x", "null", "a_12", "a_a", "o_k1"} THEN "no" ELSE "co"
-                   [] T = "optint"  -> IF v \in {"i5", "i0", "im1", "null"} THEN "yes" ELSE IF v \in {"s_abc", "s_x", "a_12", "a_a", "o_k1"} THEN "no" ELSE "co"
-                   [] T = "str"     -> IF v \in {"s_abc", "s_5", "s_x"} THEN "yes" ELSE IF v \in {"null", "a_12", "a_a", "o_k1"} THEN "no" ELSE "co"
-                   [] T = "bool"    -> IF v = "true" THEN "yes" ELSE IF v \in {"null", "a_12", "a_a", "o_k1", "s_abc", "s_x", "f1_5", "i5", "im1"} THEN "no" ELSE "co"
-                   [] T = "intlist" -> IF v = "a_12" THEN "yes" ELSE IF v \in {"i5", "i0", "im1", "s_abc", "s_5", "s_x", "true", "null", "a_a", "o_k1", "f1_5"} THEN "no" ELSE "co"
+PydTypes == {"int", "str", "bool", "optint", "intlist", "model", "modellist"}    \* model: a pydantic model class with one field x : int
+PydConf(T, v) == CASE T = "int"     -> IF v \in {"i5", "i0", "im1"} THEN "yes" ELSE IF v \in {"s_abc", "s_x", "null", "a_12", "a_a", "o_k1", "o_x1", "a_ox1"} THEN "no" ELSE "co"
+                   [] T = "optint"  -> IF v \in {"i5", "i0", "im1", "null"} THEN "yes" ELSE IF v \in {"s_abc", "s_x", "a_12", "a_a", "o_k1", "o_x1", "a_ox1"} THEN "no" ELSE "co"
+                   [] T = "str"     -> IF v \in {"s_abc", "s_5", "s_x"} THEN "yes" ELSE IF v \in {"null", "a_12", "a_a", "o_k1", "o_x1", "a_ox1"} THEN "no" ELSE "co"
+                   [] T = "bool"    -> IF v = "true" THEN "yes" ELSE IF v \in {"null", "a_12", "a_a", "o_k1", "s_abc", "s_x", "f1_5", "i5", "im1", "o_x1", "a_ox1"} THEN "no" ELSE "co"
+                   [] T = "intlist" -> IF v = "a_12" THEN "yes" ELSE IF v \in {"i5", "i0", "im1", "s_abc", "s_5", "s_x", "true", "null", "a_a", "o_k1", "f1_5", "o_x1", "a_ox1"} THEN "no" ELSE "co"
+                   \* a JSON object is never an instance of the model class already: it must be converted ("co") or is not convertible ("no")
+                   [] T = "model"     -> IF v = "o_x1" THEN "co" ELSE "no"
+                   [] T = "modellist" -> IF v = "a_ox1" THEN "co" ELSE "no"
 
 \* scn.vsrc: "fresh" = a validator object of its own; "shared" = one process-wide validator object decorating many methods with
 \* per-method arguments; "shared_default" = that shared object's validator-level default schema.  A validator carries no
@@ -39,6 +42,8 @@ InitWith(s) == scn = s /\ pc = "recv" /\ received = NoRecv /\ reply = "none"
 N == Len(scn.params)
 Provided(j) == j <= Len(scn.vals) /\ scn.vals[j] # "omit"
 \* binding (all parameters positional-or-keyword, no variadics): a positional list fills a prefix
+\* scn.sreq: the JSON schema lists EVERY parameter as required, also those the signature gives a default
+SchemaRequiredOk == (scn.validator = "schema" /\ scn.sreq) => \A j \in 1..N : Provided(j)
 BindOk == /\ \A j \in 1..N : (~Provided(j)) => scn.params[j].dflt          \* a required parameter is missing
           /\ ~scn.setextra                                                  \* naming an excluded / context parameter is an unknown argument
           /\ (scn.passing = "pos" => \A j \in 1..N : Provided(j) => \A i \in 1..j : Provided(i))
@@ -46,15 +51,18 @@ Conf(j) == IF scn.validator = "schema" THEN (IF SchemaConf(scn.params[j].type, s
            ELSE PydConf(scn.params[j].type, scn.vals[j])
 AllYes == \A j \in 1..N : Provided(j) => Conf(j) = "yes"
 SomeNo == \E j \in 1..N : Provided(j) /\ Conf(j) = "no"
-Verdict == IF ~BindOk \/ SomeNo THEN "reject" ELSE IF AllYes THEN "accept" ELSE "dontcare"
+Verdict == IF ~BindOk \/ SomeNo \/ ~SchemaRequiredOk THEN "reject" ELSE IF AllYes THEN "accept" ELSE "dontcare"
 
 \* what the body receives: the caller's values unchanged (or converted where the don't-care region applies), defaults, server-side extras
 ExpectedVal(j) == IF j > N THEN "na" ELSE IF Provided(j) THEN scn.vals[j] ELSE "DEFAULT"
 ExpectedExtra == CASE scn.extra = "ctx" -> "CTX" [] scn.extra = "dep" -> "DEFAULT" [] OTHER -> "na"
 Expected == [ran |-> TRUE, p1 |-> ExpectedVal(1), p2 |-> ExpectedVal(2), extra |-> ExpectedExtra]
 TypeOfParam(j) == scn.params[j].type
-TypeClass(T) == CASE T \in {"int", "optint"} -> "t_int" [] T = "str" -> "t_str" [] T = "bool" -> "t_bool" [] OTHER -> "t_list"
-OkValue(j, v) == \/ v = ExpectedVal(j)
+TypeClass(T) == CASE T \in {"int", "optint"} -> "t_int" [] T = "str" -> "t_str" [] T = "bool" -> "t_bool" [] T = "model" -> "t_model"
+                  [] T = "modellist" -> "t_modellist" [] OTHER -> "t_list"
+\* with coercion on a convertible value arrives CONVERTED to the annotated type, with coercion off as sent - never anything else
+Convertible(j) == j <= N /\ Provided(j) /\ scn.validator # "schema" /\ Conf(j) = "co"
+OkValue(j, v) == \/ v = ExpectedVal(j) /\ ~(Convertible(j) /\ scn.validator = "pyd_coerce")
                  \/ /\ Verdict = "dontcare" /\ j <= N /\ Provided(j) /\ Conf(j) = "co" /\ scn.validator = "pyd_coerce"
                     /\ \/ v \in Values /\ PydConf(TypeOfParam(j), v) = "yes"               \* converted to the annotated type
                        \/ v = TypeClass(TypeOfParam(j))                                  \* ... to a value outside the alphabet, of that type
